@@ -108,6 +108,8 @@ FinalClauses ==
                                       T.ret.order = SelectSeq(T.noskipOrder, LAMBDA n : n \notin Skip)>>,
      <<"cmap-excludes-skipped", "P", Has(T.ret, "cmapNames") => SetOf(T.ret.cmapNames) \cap Skip = {}>>,
      <<"cu2qu-error",         "P", Has(T.ret, "errMilli") => T.ret.errMilli <= T.opts.tolMilli>>,
+     \* before rounding to the grid the converted splines stay within the CONFIGURED conversion error (+ sampling slack)
+     <<"cu2qu-error-unrounded", "P", Has(T.ret, "preErrMilli") => T.ret.preErrMilli <= T.opts.preTolMilli>>,
      <<"model-final-cff",     "M", (T.flavor = "cff" /\ pc = "post" /\ synced) =>
                                       \A n \in DOMAIN gs \ {".notdef"} :
                                          n \in DOMAIN T.ret.outline /\ OutlineMatches(ExpCFF(gs, n), T.ret.outline[n], TolS)>> >>
